@@ -10,7 +10,7 @@ CLAIMED = {
         "hash for every bit pattern of the data members, including signed zeros and NaNs, same-object and cached-hash cases. "
         "Composite classes Pow, Interval, TwoArgBasic<> (all relationals and two-argument functions), OneArgFunction, Complement, Contains (and unified_eq on RCP operands) are "
         "proved as callers against the CALLEE CONTRACT of their children (abstract children with eq <=> equal rank, equal rank => equal hash; any sharing): eq implies equal hash, hash cache "
-        "consistent. Add::__hash__/__eq__ over a two-term dictionary Mul::__hash__/__eq__ over a two-factor ordered dictionary, MultiArgFunction (argument lists <= 3) and FiniteSet (<= 3 elements) are bounded stand-ins (hash_t narrowed to 16 bits in the quick tier; the thorough tier repeats Mul, MultiArgFunction and FiniteSet with the full 64-bit hash_t; not counted as proved). MSymEnginePoly::__eq__ / MIntPoly::__hash__ "
+        "consistent. Add::__hash__/__eq__ over a two-term dictionary Mul::__hash__/__eq__ over a two-factor ordered dictionary, MultiArgFunction (argument lists <= 3) and FiniteSet (<= 3 elements) are bounded stand-ins (hash_t narrowed to 16 bits in the quick tier; the thorough tier repeats Add, Mul, MultiArgFunction and FiniteSet with the full 64-bit hash_t; not counted as proved). MSymEnginePoly::__eq__ / MIntPoly::__hash__ "
         "and is_constant are a bounded stand-in (<= 2 terms in <= 2 of 4 variables), including equal constants over different variable sets. Other sets, "
         "booleans, other polynomial classes and matrices are not under contract.",
    note="Trusted: stub GMP integer/rational (==, <, mp_get_*), std::complex ==, hand-written dispatch for virtual calls, extraction rules; CBMC tool chain.",
